@@ -20,6 +20,9 @@ RULE = (
     "(callback / PyramidIO boundary) exactly once, by exactly one worker, set equal to serial mode and to the reference model, no "
     "processing event after the stage returned, every worker exited before return, no stuck state; leaf items carry their own "
     "tile geometry. Non-trivial: >= 2 items and k >= 2; distinct by case spec."
+    ' Also: producer stalls, late-check and slow-isset profiles, small (pipe-sized) inputs for the multi-image shutdown window, stateme'
+    'nt-boundary delays, a worker SIGKILLed on an item, and os.fork refused for the first or second worker (the stage must report it or'
+    ' still do everything).'
 )
 ASSUMPTIONS = [
     "event-log file order respects happens-before",
